@@ -62,6 +62,26 @@ def op_grid():
         G.append(("decr", ("K", 3), dict(kw)))
         G.append(("touch", ("K",), dict(kw, expire=50)))
         G.append(("touch", ("K", 60), dict(kw)))
+    # an optional argument given EXPLICITLY as None (what a caller that forwards its own optional parameters does): the wrappers must hand on what
+    # they were given - None is not "leave it out" (noreply=None means "the client's default" only where the plain Client says so)
+    for op in ("set", "add", "replace", "append", "prepend"):
+        for kw in ({"noreply": None}, {"expire": None}, {"flags": None}, {"expire": None, "noreply": False}):
+            G.append((op, ("K", "VAL"), dict(kw)))
+    for kw in ({"noreply": None}, {"expire": None}, {"flags": None}):
+        G.append(("cas", ("K", "VAL", "CAS"), dict(kw)))
+        G.append(("set_many", ({"K": "VAL", "k2": "VAL"},), dict(kw)))
+    for op, args in (("delete", ("K",)), ("delete_many", (["K", "k2"],)), ("incr", ("K", 3)), ("decr", ("K", 3)), ("touch", ("K", 60))):
+        G.append((op, args, {"noreply": None}))
+    G.append(("incr", ("K", 3, None), {}))
+    G.append(("touch", ("K",), {"expire": None, "noreply": False}))
+    G.append(("touch", ("K", None), {"noreply": False}))
+    for op in ("gat", "gats"):
+        G.append((op, ("K", None), {}))
+        G.append((op, ("K",), {"expire": None}))
+        G.append((op, ("K",), {"expire": None, "default": DEFAULT}))
+    G.append(("get", ("K", None), {}))
+    G.append(("get", ("K",), {"default": None}))
+    G.append(("gets", ("K",), {"default": None, "cas_default": None}))
     G.append(("set", ("K", "VAL", 10, False, 3), {}))          # all positional
     G.append(("cas", ("K", "VAL", "CAS", 10, False, 3), {}))
     G.append(("incr", ("K", 2, False), {}))
@@ -163,8 +183,8 @@ def main(argv):
         K, VAL = cfg["_key"], cfg["_val"]
         for state in states:
             for gi, (op, args, okw) in enumerate(grid):
-                if not ctx.thorough and gi >= len(grid) - npos and state not in ("hit", "numeric"):
-                    continue          # the all-positional forms: two server states in the quick tier
+                if not ctx.thorough and state not in ("hit", "numeric") and (gi >= len(grid) - npos or None in okw.values() or None in args):
+                    continue          # the all-positional and the explicit-None forms: two server states in the quick tier
                 if not ctx.thorough and (n % 2) and op in ("add", "replace", "prepend", "decr"):
                     n += 1
                     continue
